@@ -1,7 +1,7 @@
 """Property id -> module implementing run(prop, tier) / replay(prop, path)."""
 ALL = {
     "C01": "matchprops", "C02": "matchprops", "C03": "matchprops", "C04": "matchprops",
-    "C16": "c16", "C14": "c14", "C17": "c17", "C15": "c15", "C20": "c20",
+    "C16": "c16", "C14": "c14", "C17": "c17", "C15": "c15", "C13": "macroprops", "C19": "macroprops", "C20": "c20",
     "C08": "parseprops", "C09": "parseprops", "C10": "parseprops",
     "C05": "matchprops", "C06": "matchprops", "C18": "matchprops", "C07": "matchprops", "C11": "matchprops", "C12": "matchprops",
 }
